@@ -198,6 +198,8 @@ def _format_param_math(param: str) -> str:
 def _format_param_math_with_subscript(param: str) -> str:
     """Formats a subscripted param as math."""
     symbol, subscript = param.split("_", 1)
+    if not symbol or not subscript:
+        return _format_param_text(param)
     subscript = subscript.replace("_", r"\_")
     subscript_latex = latex(symbols(subscript))
     symbol_latex = latex(symbols(symbol))
